@@ -9,6 +9,8 @@ import (
 	"go/constant"
 	"go/token"
 	"go/types"
+	"os"
+	"path/filepath"
 	"sort"
 	"strings"
 
@@ -620,6 +622,14 @@ func (f *Frame) instr(in ssa.Instruction, st *state) {
 			return
 		}
 		ft := s.Field(x.Field).Type()
+		if len(u.W.CS.TypeInvs[types.TypeString(st0, nil)]) > 0 {
+			// a struct value read field by field: its (assumed) type invariant holds for the whole
+			if base.Loc != nil {
+				u.parserInvariant(st.heap, u.load(st.heap, base.Loc), st0)
+			} else if base.T != "" {
+				u.parserInvariant(st.heap, u.loadStruct(st.heap, base.T, st0), st0)
+			}
+		}
 		if base.Loc != nil {
 			l := *base.Loc
 			l.Path = append(append([]pathStep{}, l.Path...), pathStep{Field: x.Field, T: st0})
@@ -1444,6 +1454,33 @@ func (f *Frame) rangeOfLoop(n int) *ssa.Range {
 // (assumed; the properties quantify over parser-accepted inputs). Kept deliberately short.
 func (u *Unit) parserInvariant(h *Heap, t string, typ types.Type) {
 	name := types.TypeString(typ, nil)
+	if os.Getenv("GOVC_DEBUG_TI") != "" {
+		fmt.Fprintln(os.Stderr, "parserInvariant", name, t, len(u.W.CS.TypeInvs[name]))
+	}
+	if tis := u.W.CS.TypeInvs[name]; len(tis) > 0 && t != "" {
+		key := fmt.Sprintf("%s|%s|%p", name, t, h)
+		if u.tiDone == nil {
+			u.tiDone = map[string]bool{}
+		}
+		if !u.tiDone[key] {
+			u.tiDone[key] = true
+			for _, ti := range tis {
+				env := &SpecEnv{u: u, pkg: u.W.pkgByPath(u.W.ModPath + "/util"), vars: map[string]Val{ti.Var: {T: t, Typ: typ}}, heap: h, oldHeap: h}
+				b, err := env.evalBool(ti.Text)
+				if err != nil {
+					u.W.fail("%s:%d: typeinv %s: %v", ti.File, ti.Line, ti.Type, err)
+					continue
+				}
+				guard := "true"
+				switch typ.Underlying().(type) {
+				case *types.Pointer:
+					guard = "(not (= " + t + " 0))"
+				}
+				u.emit("(assert " + implies(guard, b) + ")")
+				u.trusted[fmt.Sprintf("parser invariant (assumed, %s:%d): every %s the parsers build satisfies %s", filepath.Base(ti.File), ti.Line, ti.Type, ti.Text)] = true
+			}
+		}
+	}
 	switch name {
 	case "*crypto/rsa.PublicKey":
 		// a parsed RSA public key has a modulus
@@ -1482,6 +1519,14 @@ func (f *Frame) fieldAddr(orig *ssa.FieldAddr, x *ssa.FieldAddr, st *state, in s
 	st0 := x.X.Type().Underlying().(*types.Pointer).Elem()
 	s := st0.Underlying().(*types.Struct)
 	ft := s.Field(x.Field).Type()
+	if len(u.W.CS.TypeInvs[types.TypeString(st0, nil)]) > 0 {
+		// a struct value read field by field: its (assumed) type invariant holds for the whole
+		if base.Loc != nil {
+			u.parserInvariant(st.heap, u.load(st.heap, base.Loc), st0)
+		} else if base.T != "" {
+			u.parserInvariant(st.heap, u.loadStruct(st.heap, base.T, st0), st0)
+		}
+	}
 	if base.Loc != nil {
 		l := *base.Loc
 		l.Path = append(append([]pathStep{}, l.Path...), pathStep{Field: x.Field, T: st0})
